@@ -304,6 +304,11 @@ def run(ctx):
 
     # implementation-level oracle: the property stated on the observations of the real function
     first_report = report
+    fails = {}
+
+    def fail(what, case, key, expected=None, observed=None):
+        fails.setdefault(key, []).append((what, case, expected, observed))
+
     for k, c in enumerate(cases):
         o = impl[k]
         e = spec(c)
@@ -314,7 +319,7 @@ def run(ctx):
             continue
         if c["kind"] == "malformed":
             if o != [-999]:
-                ctx.oracle_fail("harness accepted a malformed line", show(c), key="c20-harness-malformed", expected=[-999], observed=o)
+                fail("harness accepted a malformed line", show(c), key="c20-harness-malformed", expected=[-999], observed=o)
             continue
         exp, sel, ca = (e, None, None) if isinstance(e, list) else e
         if o and o[0] in CODES:
@@ -323,30 +328,41 @@ def run(ctx):
                 what = ("gsm48_decode_mobile_alloc(len = 0): zero-length VLA f[len << 3] (UBSan vla-bound)"
                         + ("; compiled without that check the function then writes beyond the VLA (ASan dynamic-stack-buffer-overflow)"
                            if gnu == [-998] else ""))
-                ctx.oracle_fail(what, dict(show(c), sanitizer=first_report.get(k, ""), without_vla_check=gnu), key=LEN0_KEY,
+                fail(what, dict(show(c), sanitizer=first_report.get(k, ""), without_vla_check=gnu), key=LEN0_KEY,
                                 expected=exp, observed=o)
                 ctx.nontrivial(("len0", o[0], tuple(gnu or [])[:1], min(len(ca), 2)))
             else:
-                ctx.oracle_fail("gsm48_decode_mobile_alloc: " + CODES[o[0]], dict(show(c), sanitizer=first_report.get(k, "")),
+                fail("gsm48_decode_mobile_alloc: " + CODES[o[0]], dict(show(c), sanitizer=first_report.get(k, "")),
                                 key="c20-memory-len%s" % ("1-8" if c["len"] <= 8 else ">8"), expected=exp, observed=o)
             continue
         if o != exp:
             if c["len"] > 8:
                 key = "c20-long-not-rejected"
+            elif o[0] != exp[0]:
+                key = "c20-return-code"
             elif o[:2 + 64] != exp[:2 + 64]:
                 key = "c20-hopping-list"
             else:
                 key = "c20-hopp-flags"
-            ctx.oracle_fail("gsm48_decode_mobile_alloc deviates from 44.018 10.5.2.21", show(c), key=key, expected=exp, observed=o)
+            fail("gsm48_decode_mobile_alloc deviates from 44.018 10.5.2.21", show(c), key=key, expected=exp, observed=o)
         if c["len"] > 8:
             ctx.nontrivial(("long", min(c["len"], 10)))
         else:
             n = len(sel)
             # also the direct bounds of the statement
             if n > 64 or len(set(sel)) != n or any(a not in ca for a in sel):
-                ctx.oracle_fail("hopping list not a duplicate-free subset of the cell allocation of at most 64 entries", show(c), key="c20-subset-bound")
+                fail("hopping list not a duplicate-free subset of the cell allocation of at most 64 entries", show(c), key="c20-subset-bound")
             cutoff = any((c["ma"][c["len"] - 1 - i // 8] >> (i % 8)) & 1 for i in range(len(ca), 8 * c["len"])) if c["len"] else False
             ctx.nontrivial((c["len"], min(len(ca), 65), 0 in ca, 0 in sel, n == 0, n == 64, cutoff, c["si4"] != 0))
+    # report every failure class: round-robin over the keys, at most 8 recorded inputs per key, all of them counted
+    for r in range(8):
+        for key in sorted(fails):
+            if r < len(fails[key]):
+                what, case, exp, obs = fails[key][r]
+                ctx.oracle_fail(what, case, key=key, expected=exp, observed=obs)
+    for key in fails:
+        if len(fails[key]) > 8:
+            ctx.count("oracle_fail:" + key, len(fails[key]) - 8)
     for k in range(0, len(cases), max(1, len(cases) // 6)):
         ctx.sample(dict(case=show(cases[k]), impl=impl[k][:12]))
     ctx.extra["sanitizer_reports_first"] = [first_report[k] for k in sorted(first_report)[:3]]
